@@ -122,13 +122,35 @@ theorem validTimes_iff (st ex : Time) :
     · exact absurd h2 hz
     · constructor <;> omega
 
+/-- an empty chain never passes chain validation -/
+theorem emptyChain_invalid (st : Option Time) (alg : Nat) : validateCertificateChain emptyChain st alg = false := by
+  cases st <;> rfl
+
+/-- a delivered chain that validates is the signer's own (the COSE stand-in for a nil chain never validates) -/
+theorem deliveredChain_valid (fmt : Fmt) (s : Signer) (ci : ChainInfo) (st : Option Time) (alg : Nat)
+    (h : deliveredChain fmt s = some ci) (hv : validateCertificateChain ci st alg = true) : s.chain = some ci := by
+  unfold deliveredChain at h
+  cases hc : s.chain with
+  | some c => rw [hc] at h; simpa using h
+  | none =>
+    rw [hc] at h
+    cases fmt with
+    | jws => cases h
+    | cose =>
+      simp only [Option.some.injEq] at h
+      rw [← h, emptyChain_invalid] at hv; cases hv
+
+theorem deliveredChain_of_some (fmt : Fmt) (s : Signer) (ci : ChainInfo) (h : s.chain = some ci) :
+    deliveredChain fmt s = some ci := by
+  unfold deliveredChain; rw [h]
+
 theorem prepare_ok_iff (fmt : Fmt) (r : Req) (p : Prepared) :
     prepare fmt r = .ok p ↔
       (r.payloadLen ≠ 0 ∧ validateSigningAndExpiryTime (truncSec r.signingTime) (truncSec r.expiry) = true ∧
        r.signer = some p.s ∧ p.s.keySpec = some p.ks ∧ r.scheme ≠ "" ∧ signatureAlgorithm p.ks ≠ 0 ∧
        (r.scheme = schemeX509 ∨ r.scheme = schemeAuthority) ∧ extOK fmt r.ext [] = true ∧ r.timesEncodable = true ∧
        (fmt = .jws → r.jwsObject = true) ∧ (fmt = .cose → r.ctyOK = true) ∧ (∀ a ∈ r.ext, a.encodable = true) ∧
-       p.s.signs = true ∧ p.s.chain = some p.ci ∧ tsStep r = some p.tst) := by
+       p.s.signs = true ∧ deliveredChain fmt p.s = some p.ci ∧ tsStep r = some p.tst) := by
   unfold prepare
   by_cases h1 : (r.payloadLen == 0) = true
   · simp [h1]; intro h; simp at h1; exact absurd h1 h
@@ -175,7 +197,7 @@ theorem prepare_ok_iff (fmt : Fmt) (r : Req) (p : Prepared) :
                         · simp only [h10, Bool.not_true, Bool.false_eq_true, if_false]
                           by_cases h11 : s.signs = true
                           · simp only [h11, Bool.not_true, Bool.false_eq_true, if_false]
-                            cases hc : s.chain with
+                            cases hc : deliveredChain fmt s with
                             | none =>
                               simp only [reduceCtorEq, false_iff, not_and]
                               intro _ _ he _ _ _ _ _ _ _ _ _ _ hc'; cases he; rw [hc] at hc'; cases hc'
@@ -254,14 +276,14 @@ theorem sign_ok_iff (fmt : Fmt) (r : Req) :
       obtain ⟨a1, a2, a3, a4, _, a6, a7, a8, a9, a10, a11, a12, a13, a14, a15⟩ := (prepare_ok_iff fmt r p).mp hp
       obtain ⟨b1, b2, _⟩ := (finish_ok_iff fmt r p c).mp h
       obtain ⟨t1, t2⟩ := (validTimes_iff _ _).mp a2
-      exact ⟨a1, a10, a11, t1, t2, a9, a7, ⟨p.s, p.ks, p.ci, a3, a4, a6, a13, b1, a14, b2⟩, (extOK_keysOK fmt r.ext).mp a8, a12,
+      exact ⟨a1, a10, a11, t1, t2, a9, a7, ⟨p.s, p.ks, p.ci, a3, a4, a6, a13, b1, deliveredChain_valid fmt p.s p.ci _ _ a14 b2, b2⟩, (extOK_keysOK fmt r.ext).mp a8, a12,
         (tsStep_some_iff r).mp ⟨p.tst, a15⟩⟩
   · rintro ⟨v1, v2, v3, v4, v5, v6, v7, ⟨s, ks, ci, s1, s2, s3, s4, s5, s6, s7⟩, v9, v10, v11⟩
     obtain ⟨tst, ht⟩ := (tsStep_some_iff r).mpr v11
     have hne : r.scheme ≠ "" := by
       rcases v7 with h | h <;> rw [h] <;> decide
     have hp : prepare fmt r = .ok { s := s, ks := ks, ci := ci, tst := tst } :=
-      (prepare_ok_iff fmt r _).mpr ⟨v1, (validTimes_iff _ _).mpr ⟨v4, v5⟩, s1, s2, hne, s3, v7, (extOK_keysOK fmt r.ext).mpr v9, v6, v2, v3, v10, s4, s6, ht⟩
+      (prepare_ok_iff fmt r _).mpr ⟨v1, (validTimes_iff _ _).mpr ⟨v4, v5⟩, s1, s2, hne, s3, v7, (extOK_keysOK fmt r.ext).mpr v9, v6, v2, v3, v10, s4, deliveredChain_of_some fmt s ci s6, ht⟩
     rw [hp]
     exact ⟨_, (finish_ok_iff fmt r _ _).mpr ⟨s5, s7, rfl⟩⟩
 
@@ -379,8 +401,8 @@ theorem C08_content_of_request (fmt : Fmt) (r : Req) (c : Content) (h : sign fmt
     rw [hp] at h
     simp only [] at h
     obtain ⟨_, _, a3, a4, _, _, _, _, _, _, _, _, _, a14, _⟩ := (prepare_ok_iff fmt r p).mp hp
-    obtain ⟨_, _, hc⟩ := (finish_ok_iff fmt r p c).mp h
+    obtain ⟨_, b2, hc⟩ := (finish_ok_iff fmt r p c).mp h
     subst hc
-    exact ⟨rfl, rfl, rfl, rfl, rfl, rfl, rfl, rfl, p.s, p.ks, p.ci, a3, a4, a14, rfl, rfl⟩
+    exact ⟨rfl, rfl, rfl, rfl, rfl, rfl, rfl, rfl, p.s, p.ks, p.ci, a3, a4, deliveredChain_valid fmt p.s p.ci _ _ a14 b2, rfl, rfl⟩
 
 end NotationCore.Props
